@@ -2,7 +2,7 @@
    argument types (not only on the supported calendar range):
    days_from_civil for every int16 year and every uint8 month / day value,
    civil_from_days for every int32 day count except the top 719468 (where `z += 719468` overflows). *)
-From Tetl Require Import Lib.Base C11.Model C11.Spec C11.Core C11.SweepA C11.Proofs C11.ModelCal C11.SpecCal C11.ProofsCal C11.ProofsCal2.
+From Tetl Require Import Lib.Base C11.Model C11.Spec C11.Core C11.Era C11.Proofs C11.ModelCal C11.SpecCal C11.ProofsCal C11.ProofsCal2.
 From Coq Require Import ZifyBool.
 Local Open Scope Z_scope.
 Ltac Zify.zify_post_hook ::= Z.to_euclidean_division_equations.
